@@ -24,7 +24,8 @@ REQUIRED_TAGS = ["edit:eol-comment", "edit:own-line-comment", "edit:blank-line",
                  "edit:before-metadata", "edit:inside-loop-body"]
 ASSUMPTIONS = ["an edit is a layout edit iff the grammar-derived lexer yields the same token stream up to NEWLINE multiplicity / TAB spelling and the text stays a sentence"]
 
-COMMENTS = ["# c", "#", "# G(1) | 0", "#name x", '# "quoted" {p} q0', "#\t tab", "# for int i in 0:3", "#float array A ="]
+COMMENTS = ["# c", "#", "# G(1) | 0", "#name x", '# "quoted" {p} q0', "#\t tab", "# for int i in 0:3", "#float array A =", "# " + "long comment " * 12,
+            "## | [] () , = ** 1+2j", "#" + " " * 40 + "x", "# unbalanced \" quote and { brace", "#include \"x.xbb\"", "# é unicode ü"]
 
 
 def signature(toks):
@@ -75,6 +76,8 @@ def make_variant(rng, g, base):
                     edits.add("inside-loop-body")
             if "blank-line" in kinds and rng.random() < 0.25:
                 out.append(rng.choice(["", "", " ", "   "]))
+                if rng.random() < 0.1:
+                    out.extend([""] * rng.choice([5, 12, 30]))
                 edits.add("blank-line")
                 if i == 0:
                     edits.add("before-metadata")
